@@ -44,6 +44,10 @@ CHECKS = {
    text="the real PacketSource, including its background goroutine, channel, retry sleeps and context handling, runs inside a testing/synctest bubble (fake clock, durable-blocking detection); a tape-driven controller releases one actor at a time (data source result, consumer step, cancellation, clock advance) and checks once-in-order-intact delivery with capture metadata and truncation flag, retry within 5 ms of simulated time after transient errors, channel closed and source never read again after end of input, no new read and a closed channel after cancellation, refusal of zero-copy + NoCopy on the channel interface, and no goroutine left at the end of the bubble.",
    note="trusted: harness actors and oracle; Go's select among ready cases is not owned (the packet in flight at cancellation is optional in the oracle); the data source is a stub, decoding uses gopacket.DecodePayload",
    tech="deterministic simulation in a synctest bubble with gated actors, scripted source faults (timeouts, transient and terminal errors), cancellation points and simulated clock"),
+ "C20": dict(cat="exploration", engine="bubble", ref="4 C20",
+   text="the real ReaderStream runs between an assembler-side actor (seeded delivery script with empty slices, skips and completion; batch memory scribbled over after each call returns) and a consumer actor (seeded read sizes, Close at a seeded point, double Close) inside a synctest bubble; the controller decides who moves; oracles: bytes read are exactly the bytes delivered, one DataLost per gap when asked, EOF for ever after completion or Close, both sides run to completion (no deadlock, no panic).",
+   note="trusted: harness actors and the element-by-element read model; single consumer goroutine",
+   tech="deterministic simulation in a synctest bubble with gated actors; close-point and read-size fault injection; deadlock detection by durable blocking"),
 }
 
 def main():
